@@ -422,11 +422,64 @@ func init() {
 				}
 			},
 		}
+		// several transports read one after the other in one process: what a read returns depends on its own
+		// text only (a name an earlier text defined and this one does not reads as nil)
+		seqVals := []V{model.Int(3), model.Str("x"), model.Str("{\"k\":\n 1}"), model.Vec(model.Int(1), model.Kw("k"))}
+		nOpt := int64(len(seqVals) + 1) // per name: absent, or one of the values
+		nAsg := nOpt * nOpt
+		seqLen := 3
+		seqN := nAsg * nAsg * nAsg
+		seqFam := &vf.Family{
+			Name:   "reads-in-sequence",
+			Bounds: fmt.Sprintf("every sequence of %d transports of the source [$a $b (quote $a) \"$b\"] read one after the other in one process, each with its own assignment (each of the two names absent or one of %d values: %d assignments, %d sequences); each read is compared with the template substituted with its own assignment", seqLen, len(seqVals), nAsg, seqN),
+			N:      func(string) int64 { return seqN },
+			Describe: func(i int64) string {
+				return fmt.Sprintf("assignments #%d, #%d, #%d of [$a $b (quote $a) \"$b\"] read in sequence", i%nAsg, (i/nAsg)%nAsg, i/(nAsg*nAsg))
+			},
+			Run: func(i int64, r *vf.Rec) {
+				r.NT()
+				src := "[$a $b (quote $a) \"$b\"]"
+				for k := 0; k < seqLen; k++ {
+					a := i % nAsg
+					i /= nAsg
+					im := map[string]types.MalType{}
+					va, vb := model.Nil, model.Nil
+					if x := a % nOpt; x > 0 {
+						va = seqVals[x-1]
+						im["$a"] = model.ToImpl(va)
+					}
+					if x := a / nOpt; x > 0 {
+						vb = seqVals[x-1]
+						im["$b"] = model.ToImpl(vb)
+					}
+					expected := model.Vec(va, vb, model.List(sym("quote"), va), model.Str("$b"))
+					text, err := lisp.AddPreamble(src, im)
+					if err != nil {
+						r.Violation("AddPreamble fails", err.Error())
+						return
+					}
+					var back types.MalType
+					if p := lx.Guard(func() { back, err = lisp.READWithPreamble(text, nil, nil) }); p != nil {
+						r.Violation("READWithPreamble panics: "+panicSig(p), fmt.Sprintf("text %q", text))
+						return
+					}
+					r.Exec(1)
+					if err != nil {
+						r.Violation("READWithPreamble fails on a transport read after others", fmt.Sprintf("read %d of the sequence, text %q: %v", k+1, text, err))
+						return
+					}
+					if got := model.FromImpl(back); !model.Identical(got, expected) {
+						r.Violation("READWithPreamble of a transport depends on the transports read before it", fmt.Sprintf("read %d of the sequence, text %q\nexpected %s\ngot      %s", k+1, text, expected.String(), got.String()))
+						return
+					}
+				}
+			},
+		}
 		return &vf.Check{
 			ID: "C15", Level: "model_checking",
 			Rule:        "every (template, name pair, value assignment) of the bounded space: the expected AST is the template with placeholder leaves replaced by the values (computed on the model ADT, no second reader); READWithPreamble(AddPreamble(src, m)) for every preamble line order, and Read_str(src, m), must be identical to it; every case is non-trivial",
 			Assumptions: []string{"names over letters, digits, '-' and '_'; values are data values that C06 shows readable (NUL excluded: C06 known finding)", "a source may start with its own ';; $...' comment lines: AddPreamble separates them from the preamble by a blank line"},
-			Families:    []*vf.Family{fam, empty, big},
+			Families:    []*vf.Family{fam, empty, big, seqFam},
 		}
 	})
 }
